@@ -270,8 +270,6 @@ def policy_toks(rng, world, depth, nl_strings=False, stats=None):
     for _ in range(r.choice([0, 1, 1, 1, 2, 3])):
         toks += [r.choice(["when", "unless"]), "{"]
         c = r.random()
-        if c < 0.06:
-            pass                                   # empty body is a parse error? (kept rare; measured)
         if c < 0.3:
             e = long_exprs(r)
         else:
